@@ -20,3 +20,207 @@ def main(argv):
         print('unknown selftest %r' % name, file=sys.stderr)
         return 2
     return fn(*argv[1:])
+
+
+# ---------------------------------------------------------------------------------------
+# determinism: same seed -> same event-log digest, across runs, worker counts, hash seeds
+
+PROPS = ('C11', 'C12', 'C14', 'C15')
+
+
+def _digest_chunk(args):
+    from . import core
+    name, seed, idxs = args
+    prop = core.load_prop(name)
+    out = []
+    for i in idxs:
+        r = core.run_index(prop, seed, i)
+        out.append((i, r.digest, r.vclass, bool(r.error)))
+    return out
+
+
+def _digests(n, workers, seed=0):
+    import concurrent.futures
+    import multiprocessing
+    from . import core
+    core.import_sut()
+    out = {}
+    ctx = multiprocessing.get_context('fork')
+    with concurrent.futures.ProcessPoolExecutor(max_workers=workers, mp_context=ctx) as ex:
+        jobs = []
+        for p in PROPS:
+            for i in range(0, n, 8):
+                jobs.append((p, ex.submit(_digest_chunk, (p, seed, list(range(i, min(n, i + 8)))))))
+        for p, f in jobs:
+            for i, d, v, e in f.result(timeout=1800):
+                out['%s/%d' % (p, i)] = [d, v, e]
+    return out
+
+
+def digests(n='64', workers='16', seed='0'):
+    import json
+    print(json.dumps(_digests(int(n), int(workers), int(seed)), sort_keys=True))
+    return 0
+
+
+def determinism(n='128'):
+    """Each run seed executed at 16 and at 4 harness workers in this interpreter, and once
+    more in a fresh interpreter under another PYTHONHASHSEED with 7 workers; the event-log
+    digests must be identical."""
+    import json
+    import os
+    import subprocess
+    from . import core
+    n = int(n)
+    a = _digests(n, 16)
+    b = _digests(n, 4)
+    env = dict(os.environ)
+    env['VERIF_HASHSEED'] = '12345'
+    env.pop('PYTHONHASHSEED', None)
+    p = subprocess.run([sys.executable, os.path.join(core.VERIF, 'run.py'), 'selftest', 'digests',
+                        str(n), '7'], capture_output=True, text=True, env=env, timeout=3600)
+    if p.returncode != 0:
+        print(p.stderr[-2000:], file=sys.stderr)
+        return 2
+    c = json.loads(p.stdout)
+    bad = [k for k in a if not (a[k] == b.get(k) == c.get(k))]
+    errs = [k for k in a if a[k][2]]
+    print('determinism: %d runs x 3 executions (16 workers, 4 workers, fresh interpreter with '
+          'PYTHONHASHSEED=12345 and 7 workers): %d digest mismatches, %d harness errors'
+          % (len(a), len(bad), len(errs)), file=sys.stderr)
+    for k in bad[:10]:
+        print('  MISMATCH %s: %s / %s / %s' % (k, a[k], b.get(k), c.get(k)), file=sys.stderr)
+    return 0 if not bad and not errs else 2
+
+
+def mutants(which='all', only=None):
+    """Sensitivity (breaking rewrites must be caught and replay) and no-false-alarm
+    (behaviour-preserving rewrites must stay silent) on scratch copies under /dev/shm."""
+    from . import mutants as m
+    return m.main(which, only)
+
+
+# ---------------------------------------------------------------------------------------
+# SimPool fidelity against the real multiprocessing.Pool (toy functions)
+
+def _sq(x):
+    return x * x
+
+
+def _add(a, b):
+    return a + b
+
+
+def _boom(x):
+    if x == 3:
+        raise KeyError('three')
+    return x
+
+
+def _gen_fail():
+    yield 1
+    yield 2
+    raise RuntimeError('iterable failed')
+
+
+def _unpicklable(x):
+    return lambda: x
+
+
+def _pool_script(Pool):
+    """The same script against any Pool implementation -> normalised observations."""
+    obs = {}
+    with Pool(3) as pool:
+        obs['imap'] = list(pool.imap(_sq, range(10)))
+        obs['imap_chunks'] = list(pool.imap(_sq, range(10), chunksize=3))
+        obs['imap_unordered'] = sorted(pool.imap_unordered(_sq, range(10)))
+        obs['map'] = pool.map(_sq, range(7))
+        obs['map_chunks'] = pool.map(_sq, range(7), chunksize=2)
+        obs['map_empty'] = pool.map(_sq, [])
+        obs['starmap'] = pool.starmap(_add, [(1, 2), (3, 4), (5, 6)])
+        obs['apply'] = pool.apply(_add, (2, 3))
+        obs['apply_async'] = pool.apply_async(_sq, (9,)).get()
+        r = pool.map_async(_sq, range(5))
+        r.wait()
+        obs['map_async'] = (r.ready(), r.successful(), r.get())
+        acc = []
+        r = pool.apply_async(_sq, (4,), callback=acc.append)
+        r.get()
+        obs['callback'] = acc
+        it = pool.imap(_boom, range(6))
+        got = []
+        try:
+            for v in it:
+                got.append(v)
+        except KeyError as e:
+            got.append(('KeyError', e.args))
+        obs['imap_exception_position'] = got
+        try:
+            pool.map(_boom, range(6))
+            obs['map_exception'] = 'none'
+        except KeyError as e:
+            obs['map_exception'] = ('KeyError', e.args)
+        got = []
+        try:
+            for v in pool.imap(_sq, _gen_fail()):
+                got.append(v)
+        except RuntimeError as e:
+            got.append(('RuntimeError', e.args))
+        obs['failing_iterable'] = got
+        try:
+            pool.apply(_unpicklable, (1,))
+            obs['unpicklable_result'] = 'none'
+        except Exception as e:
+            obs['unpicklable_result'] = type(e).__name__
+        it = pool.imap(_sq, range(4))
+        obs['next_then_rest'] = (next(it), list(it))
+    try:
+        pool.imap(_sq, [1])
+        obs['use_after_exit'] = 'none'
+    except ValueError as e:
+        obs['use_after_exit'] = str(e)
+    for bad in (0, -1):
+        try:
+            Pool(bad)
+            obs['processes_%d' % bad] = 'none'
+        except ValueError as e:
+            obs['processes_%d' % bad] = str(e)
+    p = Pool(2)
+    r = p.map_async(_sq, range(6))
+    p.close()
+    p.join()
+    obs['close_join'] = r.get()
+    return obs
+
+
+def pool(n_seeds='40'):
+    """Every public Pool method on toy functions: SimPool (all modes, several seeds) must give
+    the observations the real Pool gives (values for ordered APIs, multisets for unordered,
+    exception propagation position, chunksize, processes < 1, use after exit, close/join)."""
+    import multiprocessing
+    from .rng import Tape
+    from .simpool import Sim, Installed, MODES
+    real = _pool_script(multiprocessing.get_context('fork').Pool)
+    bad = 0
+    n = 0
+    for mode in MODES:
+        for seed in range(int(n_seeds)):
+            faults = {}
+            if seed % 2:
+                faults = {'stall': {'p': 25, 'ms': [50], 'steps': [4]}, 'idle_recycle': {'p': 20},
+                          'delay': {'p': 25, 'mult': [5, 20]}, 'result_latency': {'ms': [0, 20]},
+                          'tiny_inqueue': 1}
+            sim = Sim({'mode': mode, 'bg_steps': seed % 4, 'faults': faults,
+                       'pct_changes': [3, 9, 20]}, Tape(seed))
+            with Installed(sim):
+                got = _pool_script(multiprocessing.Pool)
+            n += 1
+            if got != real:
+                bad += 1
+                for k in real:
+                    if real[k] != got.get(k):
+                        print('  MISMATCH mode=%s seed=%d %s: real=%r sim=%r' % (mode, seed, k, real[k], got.get(k)),
+                              file=sys.stderr)
+    print('pool fidelity: %d simulated executions of the API script compared with the real Pool, '
+          '%d mismatching' % (n, bad), file=sys.stderr)
+    return 0 if bad == 0 else 2
